@@ -17,6 +17,13 @@ PROP = "C01"
 # Clause-by-clause map of the property (statement + quantifier of properties.jsonl) to the oracle keys that judge it
 # and the generator kinds that exercise it.  Kinds: frame (dfgen.gen_frame + vary + unlabel), family (gen_family),
 # sibling (gen_sibling), calendar (gen_calendar / calendar_sweep), malformed (gen_malformed, outside the quantifier).
+# "must raise / must not raise" audit.  C01's statement demands NO raise anywhere, so no oracle key demands one (the
+# former guard-not-raised:* keys are gone: malformed inputs are observed, never judged).  The keys that demand a NORMAL
+# return are backed by: "For every DataFrame and column-to-stype assignment, materializing yields a TensorFrame ..."
+# (materialize-raises:*, by-name-raises:*, direct-mapper-raises:*), "String-valued cells are accepted whether pandas
+# holds them as object or as its native string dtype" (materialize-raises on str dtype), "an unparseable timestamp
+# counts as missing" (materialize-raises on 'garbage' cells), and for sibling-*-raises:* the clause "the frequency-rank
+# index from the column's category statistics" applied to statistics that come from another dataset.
 CLAUSES = [
     # statement
     ("entry (i, c) is the canonical encoding of df.iloc[i][c], read from the TensorFrame by name",
@@ -64,14 +71,14 @@ ERROR_PATHS = [
     ("CategoricalTensorMapper: keys .astype(object), reset_index, merge; index[isnan] = -1; .to(long)",
      "frame (str/int categories, missing cells), sibling (int64/float64/object)", ["cell:categorical", "sibling-cell:*"]),
     ("MultiCategoricalTensorMapper: dtype gate ValueError (non object/str dtype)", "malformed float64-all-nan-multicat",
-     ["guard-not-raised:float64-all-nan-multicat"]),
+     ["observed only (no statement of C01 demands the raise); model predicts it when it happens"]),
     ("split_by_sep: assert sep is not None / assert sep is None / ValueError for a non-str non-iterable cell",
-     "malformed str-without-sep / list-with-sep / multicat-number-cell", ["guard-not-raised:*"]),
+     "malformed str-without-sep / list-with-sep / multicat-number-cell", ["observed only"]),
     ("split_by_sep: missing -> {-1}; blank -> set(); strip; set()", "frame + vary", ["cell:multicategorical"]),
     ("multicat: index.astype(int64), value_counts/reindex/cumsum offsets", "frame (dup labels, empty / missing cells)",
      ["cell:multicategorical", "materialize-raises:*"]),
     ("NumericalSequenceTensorMapper.get_sequence_length: ValueError for a non-list cell", "malformed seq-string-cell",
-     ["guard-not-raised:seq-string-cell"]),
+     ["observed only"]),
     ("sequence: ser[offset != 0], values.astype(float32)", "frame (empty / missing / NaN-holding sequences)",
      ["cell:sequence_numerical"]),
     ("TimestampTensorMapper: to_datetime(errors='coerce'), month-1 / day-1, nan_to_num(-1).to(long)",
@@ -83,7 +90,7 @@ ERROR_PATHS = [
     ("TextTokenizationTensorMapper asserts on tensor ranks; the backward() NotImplementedErrors", "not C01 (C16 / out of scope)", []),
     # stats.py / dataset.py on the materialize() path
     ("compute_col_stats: TypeError 'Numerical series contains invalid entries' (object column with strings)",
-     "malformed numerical-object-strings", ["guard-not-raised:numerical-object-strings"]),
+     "malformed numerical-object-strings", ["observed only"]),
     ("compute_col_stats: to_datetime(errors='coerce'); all-null -> default statistics", "frame (all-missing columns, "
      "format-matches-none)", ["materialize-raises:*"]),
     ("materialize(col_stats=...): the two asserts on the supplied statistics; path= cache branch",
@@ -131,7 +138,9 @@ TRUSTED = [
     "and strptime parsing are not modelled",
     "harness/dfgen.py independent cell-by-cell encoder",
 ]
-ASSUMPTIONS = ["float payloads are dyadic rationals so float32/float64 casts are exact",
+ASSUMPTIONS = ["no raise is demanded anywhere (C01's statement demands none): on malformed columns the oracle accepts a raise or "
+               "a normal return, and the model's predicted raise is compared only when the implementation raised",
+               "float payloads are dyadic rationals so float32/float64 casts are exact",
                "date recognition/parsing is pandas' (pd.to_datetime is a per-column black box whose result enters the "
                "model cell by cell); the generator emits explicit formats or datetime64, one layout per column",
                "the category lists are the implementation's own COUNT / MULTI_COUNT statistics (inputs of the model; "
@@ -329,6 +338,14 @@ def gen_large(rng, n):
             "col_order": order, "large": True}
 
 
+def near_miss(cell, fmt):
+    """a cell the configured format must reject although it is a perfectly good date in ANOTHER layout (pandas could
+    infer it on its own): it counts as missing.  Missing cells become plain garbage text."""
+    if isinstance(cell, list):
+        return G.fmt_time(cell, "%d/%m/%Y" if fmt.startswith("%Y") else "%Y-%m-%d")
+    return "garbage" if cell is None else cell
+
+
 def boundary(case, rng):
     """Deliberate boundaries of the quantified dimensions (each at a low rate): a column that is entirely missing
     except one cell; a configured time format that matches NO cell / exactly ONE cell of its column."""
@@ -338,10 +355,12 @@ def boundary(case, rng):
         r = rng.random()
         if col["stype"] == "timestamp" and col["fmt"] not in (None, "datetime64") and r < 0.12:
             keep = rng.randrange(case["n"]) if r < 0.06 else None
-            col["cells"] = [c if (i == keep and c is not None) else "garbage" for i, c in enumerate(col["cells"])]
-            col["boundary"] = "format-matches-one" if keep is not None and col["cells"][keep] != "garbage" else "format-matches-none"
+            col["cells"] = [c if (i == keep and isinstance(c, list)) else near_miss(c, col["fmt"])
+                            for i, c in enumerate(col["cells"])]
+            col["boundary"] = "format-matches-one" if keep is not None and isinstance(col["cells"][keep], list) \
+                else "format-matches-none"
         elif col["stype"] in ("numerical", "categorical", "multicategorical", "sequence_numerical", "timestamp") and r > 0.95:
-            live = [i for i, c in enumerate(col["cells"]) if c is not None and c != "garbage"]
+            live = [i for i, c in enumerate(col["cells"]) if c is not None and not isinstance(c, str)]
             if live:
                 keep = rng.pick(live)
                 col["cells"] = [c if i == keep else None for i, c in enumerate(col["cells"])]
@@ -361,11 +380,12 @@ def force_boundaries(cases):
         for col in case["cols"]:
             if not want or col["name"] == case["target"] or col.get("boundary"):
                 continue
-            live = [i for i, c in enumerate(col["cells"]) if c is not None and c != "garbage"]
+            live = [i for i, c in enumerate(col["cells"]) if c is not None and not (col["stype"] == "timestamp"
+                                                                                     and isinstance(c, str))]
             b = want[0]
             if b.startswith("format") and col["stype"] == "timestamp" and col["fmt"] not in (None, "datetime64") and live:
                 keep = live[0] if b == "format-matches-one" else None
-                col["cells"] = [c if i == keep else "garbage" for i, c in enumerate(col["cells"])]
+                col["cells"] = [c if i == keep else near_miss(c, col["fmt"]) for i, c in enumerate(col["cells"])]
                 col["boundary"] = want.pop(0)
             elif b == "all-missing-but-one" and col["stype"] in ("numerical", "categorical", "sequence_numerical") and live:
                 col["cells"] = [c if i == live[0] else None for i, c in enumerate(col["cells"])]
@@ -683,11 +703,9 @@ def oracle(case, obs):
     if case.get("kind") == "sibling":
         return oracle_sibling(case, obs)
     if case.get("malformed"):
-        # outside the quantifier: no encoding is demanded.  Where the LIBRARY has an explicit guard for the situation
-        # (assert / raise in mapper.py, stats.py), the guard must still fire; numpy's own shape errors are not demanded
-        if obs.get("ok") and case["malformed"] in GUARDED:
-            return dict(key=f"guard-not-raised:{case['malformed']}", what=f"a {case['malformed']} column materialized "
-                        f"without an error although the library guards against it")
+        # Outside the quantifier.  C01's statement demands no raise anywhere, so NOTHING is demanded here: a raise and a
+        # normal return are both accepted (raise-or-consistent-result); what happened is only recorded
+        # (stats()['malformed_raised']) and, when the implementation raised, the model must predict the raise.
         return None
     if not obs["ok"]:
         sts = sorted({c["stype"] for c in case["cols"]})
